@@ -702,7 +702,8 @@ impl<'de> de::SeqAccess<'de> for PosAccess<'de> {
         if self.pos >= self.order.len() {
             return match self.limit {
                 // the reader expects more values than the record holds: it runs off the end
-                Some(_) => Err(SimError::Medium("unexpected end of positional record")),
+                Some(_) if !self.de.env.cfg.clean_end => Err(SimError::Medium("unexpected end of positional record")),
+                Some(_) => Ok(None),
                 None => Ok(None),
             };
         }
